@@ -126,6 +126,12 @@ check("C14", "translation_validation",
       "P3 artefact model checking: emitted code objects loaded as TLA+ constants, abstract interpreter explored by TLC",
       "DESIGN.md section 6 C14")
 
+check("C15", "translation_validation",
+      "(a) MarshalVals.tla derives constant values (integers around every digit-count boundary up to 2**64-1, floats incl. -0.0/inf/nan/denormal, strings of every encoding class and the 255/256-character boundary, booleans, None, nested tuples; exhaustive to depth 1, simulated to depth 3). Each is serialised in-process by the real ValueObj::into_bytes; Marshal.tla -- the decoder side of the marshal wire format as a TLA+ recursive-descent machine with reference table -- decodes the bytes under TLC and must reproduce the expected typed value exactly with no trailing bytes; CPython's marshal.loads of the same bytes is the second voter. (b) Programs embedding these constants and ErgProg programs with lambdas/closures are compiled; the interpreter must unmarshal every file and the compiler's own reader (CodeObj::from_pyc, i.e. `erg --mode read`) must read every file back. (c) Fault enumeration: every truncation and 1200 single-byte mutations (tag substitutions, flag flips) of valid files must make the reader report an error or succeed, never panic, abort or hang.",
+      "Trusted: TLC; Marshal.tla (validated against CPython's unmarshaller on every value); BigInt.tla.",
+      "TLA+ decoder machine run by TLC on the real serialiser's output (P3); fault enumeration on the real reader",
+      "DESIGN.md section 6 C15")
+
 NOT_APPLICABLE = {
     "C16": "static comparison of opcode/magic tables with external ground truth: no state or behaviour for a TLA+ specification to constrain (DESIGN.md section 7)",
     "C27": "data audit of ~150 declaration files against installed interpreters/typeshed: no behaviour to model in TLA+ (DESIGN.md section 7)",
